@@ -7,7 +7,9 @@ unchanged, keeps the tree of every node older than the checkpoint and of the sur
 replacement node, and replaces a heap atom by a heap atom (representation preserved — the
 repaired defect of commit 5fec10a).  (2) Machine level: the machine model
 (`ClvmModel/Interp/Machine.lean`) *specifies* GC as unobservable (the `RestoreAllocator` step keeps
-value and counters); that the real interpreter with ENABLE_GC behaves like this model is what the
+value and counters), and `gc_unobservable_model` / `chia_gc_unobservable` prove that this is all the
+flag does in the model: whole runs with and without ENABLE_GC have identical outcomes and counters.
+That the real interpreter with ENABLE_GC behaves like this model is what the
 RUN correspondence stream (random flag sets incl. ENABLE_GC, garbage-heavy programs) and the
 `interp_gc` oracle (implementation with vs without the flag: outcome, cost, error message, three
 counts) check.  Bridge not proved: that every `NodePtr` the Rust loop still holds after a restore is
@@ -16,6 +18,8 @@ older than the checkpoint or is the replaced stack top (needs a pointer-level ma
 import ClvmProofs.Props.C12
 import ClvmProofs.Props.C14
 import ClvmProofs.Lemmas.Interp.MachineBase
+import ClvmProofs.Lemmas.Interp.GcChia
+import ClvmProofs.Lemmas.Interp.ReprChia
 
 namespace Clvm.Props.C04
 open Clvm Clvm.Alloc
@@ -54,5 +58,67 @@ theorem restore_step_model (cfg : Interp.Cfg) (d : Interp.Dialect) (s s' : Inter
     · simp only [Except.ok.injEq, Prod.mk.injEq] at h
       obtain ⟨rfl, rfl⟩ := h
       exact ⟨rfl, rfl, rfl, rfl, rfl, rfl⟩
+
+/-- **Machine model, generic: a `gc_candidate` is unobservable.**  `GcPair d0 d1`: the two dialects
+agree on everything the machine reads (keywords, softfork extensions, the three flag bits the machine
+looks at, the operator function) and `d0` has no GC candidates, `d1` any.  Then every terminating
+run of `d0` is a terminating run of `d1` with exactly the same outcome `r` — result value, cost or
+error, and the atom / pair / heap counters — and conversely; only the amount of fuel (number of
+machine steps) differs.
+
+What this covers: in the model, ENABLE_GC only inserts `RestoreAllocator` operations (pushed by
+`eval_op_atom` when `gc_candidate` accepts the operator atom); a stuttering simulation shows that
+nothing else in the machine depends on them — not the depth of the operation stack, not the
+checkpoint count, not the cost check at the head of the loop — and the stack-shape invariant
+(`MState.Shaped`) shows that a pending `RestoreAllocator` never fails.  What it does not cover: the
+`RestoreAllocator` step *of the model* keeps value and counters by definition; what
+`maybe_restore_with_node` does to the real allocator (which nodes survive, ghost accounting,
+representation of the replacement) is `restore_keeps_counts` / `restore_keeps_trees` above, on the
+allocator model.  The tie between the two levels is empirical: the RUN stream with ENABLE_GC against
+this machine model, and the `interp_gc` oracle on the implementation. -/
+theorem gc_unobservable_model (cfg : Interp.Cfg) {d0 d1 : Interp.Dialect} (hd : Interp.GcPair d0 d1)
+    (c0 : Interp.Ctr) (p env : Interp.Val) (mc : Nat) (r : Interp.OpRes) :
+    (∀ fuel, Interp.runProgram cfg d0 fuel c0 p env mc = some r →
+      ∃ fuel', Interp.runProgram cfg d1 fuel' c0 p env mc = some r) ∧
+    (∀ fuel', Interp.runProgram cfg d1 fuel' c0 p env mc = some r →
+      ∃ fuel, Interp.runProgram cfg d0 fuel c0 p env mc = some r) :=
+  Interp.gc_unobservable_model cfg hd c0 p env mc r
+
+/-- **Machine model, `ChiaDialect` with every operator** (no operator hypotheses, any program and
+environment, any budget and counters): for a flag set `F` without ENABLE_GC, `ChiaDialect(F)` and
+`ChiaDialect(F | ENABLE_GC)` terminate on the same inputs with the same outcome and the same
+counters.  Besides the simulation this checks that neither the dispatch (`ChiaDialect::op`) nor any
+core, unknown or cryptographic operator reads the ENABLE_GC bit (`chia_gcPair`). -/
+theorem chia_gc_unobservable (cfg : Interp.Cfg) (F : Nat) (hF : Interp.hasFlag F Gen.FLAG_ENABLE_GC = false)
+    (c0 : Interp.Ctr) (p env : Interp.Val) (mc : Nat) (r : Interp.OpRes) :
+    (∀ fuel, Interp.runProgram cfg (Interp.chiaDialect cfg Interp.cryptoExtra F) fuel c0 p env mc = some r →
+      ∃ fuel', Interp.runProgram cfg (Interp.chiaDialect cfg Interp.cryptoExtra (F ||| Gen.FLAG_ENABLE_GC))
+        fuel' c0 p env mc = some r) ∧
+    (∀ fuel', Interp.runProgram cfg (Interp.chiaDialect cfg Interp.cryptoExtra (F ||| Gen.FLAG_ENABLE_GC))
+        fuel' c0 p env mc = some r →
+      ∃ fuel, Interp.runProgram cfg (Interp.chiaDialect cfg Interp.cryptoExtra F) fuel c0 p env mc = some r) :=
+  Interp.chia_gc_unobservable cfg F hF c0 p env mc r
+
+/-- … and for any table of extra operators that do not read the bit -/
+theorem chia_gc_unobservable_extra (cfg : Interp.Cfg) (extra : String → Option Interp.OpFn)
+    (hextra : ∀ name f G, extra name = some f → f (G ||| Gen.FLAG_ENABLE_GC) = f G)
+    (F : Nat) (hF : Interp.hasFlag F Gen.FLAG_ENABLE_GC = false)
+    (c0 : Interp.Ctr) (p env : Interp.Val) (mc : Nat) (r : Interp.OpRes) :
+    (∀ fuel, Interp.runProgram cfg (Interp.chiaDialect cfg extra F) fuel c0 p env mc = some r →
+      ∃ fuel', Interp.runProgram cfg (Interp.chiaDialect cfg extra (F ||| Gen.FLAG_ENABLE_GC))
+        fuel' c0 p env mc = some r) ∧
+    (∀ fuel', Interp.runProgram cfg (Interp.chiaDialect cfg extra (F ||| Gen.FLAG_ENABLE_GC))
+        fuel' c0 p env mc = some r →
+      ∃ fuel, Interp.runProgram cfg (Interp.chiaDialect cfg extra F) fuel c0 p env mc = some r) :=
+  Interp.chia_gc_unobservable_extra cfg extra hextra F hF c0 p env mc r
+
+-- the statement is not vacuous: `(+ (q . 1) (q . 2))` terminates with 6 steps without the flag and
+-- needs 7 with it (one `RestoreAllocator`)
+example : (Interp.runProgram {} (Interp.chiaDialect {} Interp.cryptoExtra 0) 6 (Interp.Ctr.new 1000)
+    (Interp.addProg true) Interp.Val.nil 0).isSome = true := by rfl
+example : (Interp.runProgram {} (Interp.chiaDialect {} Interp.cryptoExtra (0 ||| Gen.FLAG_ENABLE_GC)) 6
+    (Interp.Ctr.new 1000) (Interp.addProg true) Interp.Val.nil 0).isSome = false := by rfl
+example : (Interp.runProgram {} (Interp.chiaDialect {} Interp.cryptoExtra (0 ||| Gen.FLAG_ENABLE_GC)) 7
+    (Interp.Ctr.new 1000) (Interp.addProg true) Interp.Val.nil 0).isSome = true := by rfl
 
 end Clvm.Props.C04
